@@ -1,7 +1,11 @@
 (* proofs/CleanProofs.v -- lemmas about model/Clean.v (file-system side of cleaning, finalize,
    the clean tool, histories of file rows). *)
 From Coq Require Import List NArith Bool Lia.
-From SV Require Import lib.Bytes gen.GenClean model.TrellisDD model.Clean proofs.TrellisDDProofs.
+From SV Require Import lib.Bytes.
+From SV Require Import gen.GenClean.
+From SV Require Import model.TrellisDD.
+From SV Require Import model.Clean.
+From SV Require Import proofs.TrellisDDProofs.
 Import ListNotations.
 Open Scope N_scope.
 
@@ -225,4 +229,464 @@ Proof.
     + intros d Hd. apply in_rev in Hd. destruct (D d Hd) as [D1 [D2 D3]]. split; [exact D1 | split; [exact D2|]].
       intros p Hu H0. destruct (D3 p Hu H0) as [H|H]; [left | right]; apply -> in_rev; exact H.
   - intros x Hx. apply in_rev in Hx. apply Hok1. exact Hx.
+Qed.
+
+(* ---- facts about the generated constants (checked by computation on every run) ------------- *)
+
+Lemma memN_In x l : memN x l = true <-> In x l.
+Proof.
+  unfold memN. rewrite existsb_exists. split.
+  - intros [y [Hy He]]. apply N.eqb_eq in He. subst. exact Hy.
+  - intros H. exists x. split; [exact H | apply N.eqb_refl].
+Qed.
+
+Lemma memN_forallb (P : N -> bool) x l : memN x l = true -> forallb P l = true -> P x = true.
+Proof. intros Hm Hf. apply memN_In in Hm. rewrite forallb_forall in Hf. apply Hf. exact Hm. Qed.
+
+Lemma gen_bd_volatile s : memN s bd_volatile_states = true -> memN s volatile_states = true.
+Proof. intros H. apply (memN_forallb (fun x => memN x volatile_states) s _ H). vm_compute. reflexivity. Qed.
+
+Lemma gen_bd_hashed s : memN s bd_hashed_states = true -> memN s output_states = true.
+Proof. intros H. apply (memN_forallb (fun x => memN x output_states) s _ H). vm_compute. reflexivity. Qed.
+
+Lemma gen_revert_to_not_queued :
+  memN revert_to bd_volatile_states = false /\ memN revert_to bd_hashed_states = false.
+Proof. vm_compute. split; reflexivity. Qed.
+
+Lemma gen_revert_from s : memN s revert_from = true ->
+  (if s =? revert_exempt then memN s volatile_states else memN s output_states) = true.
+Proof.
+  intros H.
+  apply (memN_forallb (fun x => if x =? revert_exempt then memN x volatile_states else memN x output_states) s _ H).
+  vm_compute. reflexivity.
+Qed.
+
+Lemma gen_roles_disjoint s :
+  is_output_role s = true -> memN s static_states = false.
+Proof.
+  unfold is_output_role. intros H. apply orb_true_iff in H.
+  destruct (memN s static_states) eqn:E; [|reflexivity]. exfalso.
+  assert (forallb (fun x => negb (memN x output_states || memN x volatile_states)) static_states = true) as Hf
+    by (vm_compute; reflexivity).
+  pose proof (memN_forallb _ s _ E Hf) as Hn. cbv beta in Hn. apply negb_true_iff in Hn.
+  apply orb_false_iff in Hn. destruct Hn as [H1 H2]. destruct H as [H|H]; congruence.
+Qed.
+
+Lemma gen_clean_select s : memN s clean_select_states = true -> is_output_role s = true.
+Proof. intros H. apply (memN_forallb is_output_role s _ H). vm_compute. reflexivity. Qed.
+
+(* ---- the queue only ever holds paths of output-role file rows of the graph ------------------ *)
+
+Definition node_owns (g : graph) (p : str) (v : option N) : Prop :=
+  exists n, In n (gnodes g) /\ nkind n = KFILE /\ nlabel n = p /\
+    ((v = None /\ memN (nfstate n) volatile_states = true) \/
+     (exists h, v = Some h /\ nfhash n = Some h /\ memN (nfstate n) output_states = true)).
+
+Definition queue_owned (g : graph) (q : queue) : Prop :=
+  forall p v, qfile_get q p = Some v -> node_owns g p v.
+
+Lemma find_filter_other (l : list (str * option N)) p p' : p' <> p ->
+  find (fun e => str_eqb (fst e) p') (filter (fun e => negb (str_eqb (fst e) p)) l) =
+  find (fun e => str_eqb (fst e) p') l.
+Proof.
+  intros Hne. induction l as [|[x v] l IH]; [reflexivity|].
+  cbn [filter fst]. destruct (str_eqb x p) eqn:E; cbn [negb].
+  - apply str_eqb_eq in E. subst x. cbn [find fst].
+    assert (str_eqb p p' = false) as -> by (apply str_eqb_neq; congruence). exact IH.
+  - cbn [find fst]. destruct (str_eqb x p'); [reflexivity | exact IH].
+Qed.
+
+Lemma qfile_get_set q p v p' :
+  qfile_get (qfile_set q p v) p' = if str_eqb p p' then Some v else qfile_get q p'.
+Proof.
+  unfold qfile_get, qfile_set. cbn [qfiles find fst snd].
+  destruct (str_eqb p p') eqn:E; [reflexivity|].
+  apply str_eqb_neq in E. rewrite find_filter_other by congruence. reflexivity.
+Qed.
+
+Lemma qfile_get_mark_dir q d p : qfile_get (mark_dir q d) p = qfile_get q p.
+Proof. unfold mark_dir. destruct (is_dot (normdir d)); reflexivity. Qed.
+
+Lemma queue_owned_set g q p v : queue_owned g q -> node_owns g p v -> queue_owned g (qfile_set q p v).
+Proof.
+  intros Hq Hn p' v' Hg. rewrite qfile_get_set in Hg. destruct (str_eqb p p') eqn:E.
+  - apply str_eqb_eq in E. subst. inversion Hg. subst. exact Hn.
+  - apply Hq. exact Hg.
+Qed.
+
+Lemma queue_owned_mark g q d : queue_owned g q -> queue_owned g (mark_dir q d).
+Proof. intros Hq p v Hg. rewrite qfile_get_mark_dir in Hg. apply Hq. exact Hg. Qed.
+
+Lemma queue_owned_empty g : queue_owned g empty_queue.
+Proof. intros p v H. discriminate. Qed.
+
+(* a later node stems from a node of g with the same file row, or was reverted to revert_to *)
+Definition row_from (g : graph) (n' : node) : Prop :=
+  exists n, In n (gnodes g) /\ nkey n = nkey n' /\
+    ((nfstate n' = nfstate n /\ nfhash n' = nfhash n) \/ nfstate n' = revert_to).
+
+Lemma before_delete_owned g q n' : queue_owned g q -> row_from g n' -> queue_owned g (before_delete n' q).
+Proof.
+  intros Hq [n [Hn [Hk Hrow]]]. unfold before_delete.
+  destruct (nkind n' =? KFILE) eqn:Ekind.
+  - apply N.eqb_eq in Ekind. apply queue_owned_mark.
+    assert (nkind n = KFILE) as Hkind by (unfold nkind in *; rewrite Hk; exact Ekind).
+    assert (nlabel n = nlabel n') as Hlab by (unfold nlabel; rewrite Hk; reflexivity).
+    destruct (memN (nfstate n') bd_volatile_states) eqn:Ev.
+    + apply queue_owned_set; [exact Hq|]. destruct Hrow as [[Hs Hh]|Hs].
+      * exists n. split; [exact Hn | split; [exact Hkind | split; [exact Hlab|]]]. left. split; [reflexivity|].
+        rewrite <- Hs. apply gen_bd_volatile. exact Ev.
+      * rewrite Hs in Ev. destruct gen_revert_to_not_queued as [H _]. congruence.
+    + destruct (memN (nfstate n') bd_hashed_states) eqn:Eh; [|exact Hq].
+      destruct (nfhash n') as [h|] eqn:Ehash; [|exact Hq].
+      apply queue_owned_set; [exact Hq|]. destruct Hrow as [[Hs Hh]|Hs].
+      * exists n. split; [exact Hn | split; [exact Hkind | split; [exact Hlab|]]]. right. exists h.
+        split; [reflexivity | split; [congruence|]]. rewrite <- Hs. apply gen_bd_hashed. exact Eh.
+      * rewrite Hs in Eh. destruct gen_revert_to_not_queued as [_ H]. congruence.
+  - destruct (nkind n' =? KSTEP); [apply queue_owned_mark|]; exact Hq.
+Qed.
+
+Lemma queue_deleted_owned g deleted : forall q,
+  queue_owned g q -> (forall n', In n' deleted -> row_from g n') -> queue_owned g (queue_deleted deleted q).
+Proof.
+  unfold queue_deleted. induction deleted as [|d deleted IH]; intros q Hq Hall; [exact Hq|].
+  cbn [fold_left]. apply IH.
+  - apply before_delete_owned; [exact Hq | apply Hall; left; reflexivity].
+  - intros n' Hin. apply Hall. right. exact Hin.
+Qed.
+
+(* revert_optional_steps *)
+Lemma revert_queue_node_owned g q n :
+  queue_owned g q -> In n (gnodes g) -> is_revert_target g n = true -> queue_owned g (revert_queue_node n q).
+Proof.
+  intros Hq Hn Ht. unfold revert_queue_node. apply queue_owned_mark.
+  unfold is_revert_target in Ht. apply andb_true_iff in Ht. destruct Ht as [Ht _].
+  apply andb_true_iff in Ht. destruct Ht as [Hkind Hfrom]. apply N.eqb_eq in Hkind.
+  pose proof (gen_revert_from _ Hfrom) as Hrole.
+  destruct (nfstate n =? revert_exempt) eqn:Ex.
+  - apply queue_owned_set; [exact Hq|]. exists n. split; [exact Hn | split; [exact Hkind | split; [reflexivity|]]].
+    left. split; [reflexivity | exact Hrole].
+  - destruct (nfhash n) as [h|] eqn:Eh; [|exact Hq].
+    apply queue_owned_set; [exact Hq|]. exists n. split; [exact Hn | split; [exact Hkind | split; [reflexivity|]]].
+    right. exists h. split; [reflexivity | split; [exact Eh | exact Hrole]].
+Qed.
+
+Lemma revert_optional_owned g q :
+  queue_owned g q -> queue_owned g (snd (revert_optional g q)).
+Proof.
+  intros Hq. unfold revert_optional. cbn [snd].
+  assert (forall l q0, (forall n, In n l -> In n (gnodes g) /\ is_revert_target g n = true) ->
+            queue_owned g q0 -> queue_owned g (fold_left (fun q n => revert_queue_node n q) l q0)) as Hgen.
+  { induction l as [|a l IH]; intros q0 Hl Hq0; [exact Hq0|]. cbn [fold_left]. apply IH.
+    - intros n Hin. apply Hl. right. exact Hin.
+    - destruct (Hl a (or_introl eq_refl)) as [Ha1 Ha2]. apply revert_queue_node_owned; assumption. }
+  apply Hgen; [|exact Hq]. intros n Hin. apply filter_In in Hin. exact Hin.
+Qed.
+
+Lemma revert_node_row_from g n : In n (gnodes g) -> row_from g (revert_node g n).
+Proof.
+  intros Hn. exists n. split; [exact Hn|]. unfold revert_node.
+  destruct (is_optional_step n); [split; [reflexivity | left; split; reflexivity]|].
+  destruct (is_revert_target g n && negb (nfstate n =? revert_exempt)).
+  - split; [reflexivity | right; reflexivity].
+  - split; [reflexivity | left; split; reflexivity].
+Qed.
+
+Lemma prestep_node_row g0 g n : row_from g0 n -> row_from g0 (prestep_node g n).
+Proof.
+  intros H. unfold prestep_node. destruct (ncreator n) as [c|]; [|exact H].
+  destruct (_ && _); [|exact H]. destruct H as [m [Hm [Hk Hr]]]. exists m. split; [exact Hm | split; [exact Hk | exact Hr]].
+Qed.
+
+Lemma dd_loop_acc_sub fuel : forall g acc x,
+  In x (snd (dd_loop fuel g acc)) -> In x acc \/ In x (gnodes g).
+Proof.
+  induction fuel as [|fuel IH]; intros g acc x Hin; [left; exact Hin|].
+  cbn [dd_loop] in Hin. destruct (find (eligible g) (gnodes g)) as [n|] eqn:Hf; [|left; exact Hin].
+  apply find_some in Hf. destruct Hf as [Hn _].
+  destruct (IH _ _ _ Hin) as [[<-|H]|H].
+  - right. exact Hn.
+  - left. exact H.
+  - right. apply del_node_nodes_in in H. apply H.
+Qed.
+
+Lemma workflow_dd_deleted_from g0 g :
+  (forall n, In n (gnodes g) -> row_from g0 n) ->
+  forall n', In n' (dd_deleted (workflow_dd g)) -> row_from g0 n'.
+Proof.
+  intros Hall n' Hin. unfold workflow_dd in Hin. rewrite trellis_dd_deleted in Hin.
+  apply in_rev in Hin. unfold dd_raw in Hin. apply dd_loop_acc_sub in Hin. destruct Hin as [[]|Hin].
+  unfold prestep in Hin. cbn [gnodes] in Hin. apply in_map_iff in Hin. destruct Hin as [m [<- Hm]].
+  apply prestep_node_row. apply Hall. exact Hm.
+Qed.
+
+(* ---- Builder.finalize ---------------------------------------------------------------------- *)
+
+Theorem no_cleanup_when_guarded c s :
+  c_targets c = true \/ N.ldiff (c_returncode c) RC_WARNING <> 0 \/ c_clean c = false ->
+  finalize c s = s.
+Proof.
+  intros H. unfold finalize, finalize_with.
+  assert (existsb (guard_fires c) finalize_guards = true) as ->; [|reflexivity].
+  apply existsb_exists. destruct H as [H|[H|H]].
+  - exists GTargets. split; [cbv [finalize_guards In]; tauto | exact H].
+  - exists (GRcMasked RC_WARNING). split; [cbv [finalize_guards RC_WARNING In]; tauto|].
+    cbn [guard_fires]. apply negb_true_iff. apply N.eqb_neq. exact H.
+  - exists GNoClean. split; [cbv [finalize_guards In]; tauto|]. cbn [guard_fires]. rewrite H. reflexivity.
+Qed.
+
+(* the three cleanup calls, in the order of the source *)
+Lemma finalize_unguarded c g f :
+  existsb (guard_fires c) finalize_guards = false ->
+  finalize c (init_state g f) =
+  let '(g1, q1) := revert_optional g empty_queue in
+  let o := workflow_dd g1 in
+  let q2 := queue_deleted (dd_deleted o) q1 in
+  let r := remove_deletable_files q2 f in
+  mkFin (dd_g o) empty_queue (r_fs r) (r_files r) (r_dirs r) (dd_err o).
+Proof.
+  intros Hg. unfold finalize, finalize_with. rewrite Hg.
+  change finalize_cleanup_calls with [CRevert; CDeleteDetached; CRemoveFiles].
+  unfold run_calls, init_state. cbn [fold_left run_call s_g s_q s_fs s_files s_dirs s_err].
+  destruct (revert_optional g empty_queue) as [g1 q1].
+  cbn [s_g s_q s_fs s_files s_dirs s_err app orb]. reflexivity.
+Qed.
+
+Lemma finalize_queue_owned g :
+  let '(g1, q1) := revert_optional g empty_queue in
+  queue_owned g (queue_deleted (dd_deleted (workflow_dd g1)) q1).
+Proof.
+  pose proof (revert_optional_owned g empty_queue (queue_owned_empty g)) as H1.
+  destruct (revert_optional g empty_queue) as [g1 q1] eqn:Hr. cbn [snd] in H1.
+  apply queue_deleted_owned; [exact H1|].
+  apply workflow_dd_deleted_from. intros n Hn.
+  unfold revert_optional in Hr. inversion Hr. subst g1. cbn [gnodes] in Hn.
+  apply in_map_iff in Hn. destruct Hn as [m [<- Hm]]. apply revert_node_row_from. exact Hm.
+Qed.
+
+(* invariant tying the graph to the ghost set *)
+Definition ever_inv (g : graph) (ever : list str) : Prop :=
+  forall n, In n (gnodes g) -> nkind n = KFILE -> is_output_role (nfstate n) = true -> In (nlabel n) ever.
+
+Definition owned_removal (g : graph) (f : fsys) (ever : list str) (unsafe : bool) (p : str) : Prop :=
+  exists n h0, In n (gnodes g) /\ nkind n = KFILE /\ nlabel n = p /\
+    In p ever /\ memN (nfstate n) static_states = false /\ is_output_role (nfstate n) = true /\
+    fs_get f p = Some (FFile h0) /\
+    (memN (nfstate n) volatile_states = true \/ nfhash n = Some h0 \/ unsafe = true).
+
+Theorem removed_only_owned_finalize c g f ever :
+  ever_inv g ever ->
+  forall p, In p (s_files (finalize c (init_state g f))) -> owned_removal g f ever false p.
+Proof.
+  intros Hev p Hp.
+  destruct (existsb (guard_fires c) finalize_guards) eqn:Hg.
+  - unfold finalize, finalize_with in Hp. rewrite Hg in Hp. destruct Hp.
+  - rewrite (finalize_unguarded c g f Hg) in Hp. pose proof (finalize_queue_owned g) as Hown.
+    destruct (revert_optional g empty_queue) as [g1 q1]. cbv zeta in Hp. cbn [s_files] in Hp.
+    destruct (rdf_trace (queue_deleted (dd_deleted (workflow_dd g1)) q1) f) as [_ Hok].
+    destruct (Hok p Hp) as [h0 [Hf Hq]].
+    assert (exists v, qfile_get (queue_deleted (dd_deleted (workflow_dd g1)) q1) p = Some v /\
+                      (v = None \/ v = Some h0)) as [v [Hv Hvv]].
+    { destruct Hq as [Hq|Hq]; [exists None | exists (Some h0)]; split; auto. }
+    destruct (Hown p v Hv) as [n [Hn [Hkind [Hlab Hrole]]]].
+    assert (is_output_role (nfstate n) = true) as Hout.
+    { unfold is_output_role. destruct Hrole as [[_ H]|[h [_ [_ H]]]]; rewrite H; [apply orb_true_r | reflexivity]. }
+    exists n, h0. split; [exact Hn | split; [exact Hkind | split; [exact Hlab|]]].
+    split; [rewrite <- Hlab; apply Hev; assumption|].
+    split; [apply gen_roles_disjoint; exact Hout|]. split; [exact Hout|]. split; [exact Hf|].
+    destruct Hrole as [[_ H]|[h [Hvh [Hh _]]]]; [left; exact H|].
+    right. left. destruct Hvv as [Hvv|Hvv]; congruence.
+Qed.
+
+(* a removed directory was a directory, and everything that was below it was itself removed by
+   the same cleanup; nothing else vanishes *)
+Definition dirs_only_when_emptied (f f' : fsys) (files dirs : list str) : Prop :=
+  (forall d, In d dirs -> fs_get f d = Some FDir /\
+     forall p, under d p = true -> fs_get f p <> None -> In p files \/ In p dirs) /\
+  (forall p, fs_get f p <> None -> fs_get f' p = None -> In p files \/ In p dirs) /\
+  (forall p e, fs_get f' p = Some e -> fs_get f p = Some e).
+
+Lemma trace_inv_dirs f f' files dirs : trace_inv f f' files dirs -> dirs_only_when_emptied f f' files dirs.
+Proof.
+  intros [A B C D]. split; [|split].
+  - intros d Hd. destruct (D d Hd) as [D1 [_ D3]]. split; assumption.
+  - exact B.
+  - exact A.
+Qed.
+
+Theorem dir_removed_only_if_empty_rdf q f :
+  let r := remove_deletable_files q f in dirs_only_when_emptied f (r_fs r) (r_files r) (r_dirs r).
+Proof. cbv zeta. apply trace_inv_dirs. apply rdf_trace. Qed.
+
+Theorem dir_removed_only_if_empty_finalize c g f :
+  let r := finalize c (init_state g f) in dirs_only_when_emptied f (s_fs r) (s_files r) (s_dirs r).
+Proof.
+  cbv zeta. destruct (existsb (guard_fires c) finalize_guards) eqn:Hg.
+  - unfold finalize, finalize_with. rewrite Hg. cbn [init_state s_fs s_files s_dirs].
+    apply trace_inv_dirs. apply trace_inv_init.
+  - rewrite (finalize_unguarded c g f Hg). destruct (revert_optional g empty_queue) as [g1 q1].
+    cbv zeta. cbn [s_fs s_files s_dirs]. apply dir_removed_only_if_empty_rdf.
+Qed.
+
+(* ---- histories of file rows: output-role states only arise from declared outputs ------------ *)
+
+Definition rows_inv (rows : list frow) (ever : list str) : Prop :=
+  forall r, In r rows -> is_output_role (fr_state r) = true -> In (fr_path r) ever.
+
+Lemma write_state_path r s h : fr_path (write_state r s h) = fr_path r.
+Proof. reflexivity. Qed.
+Lemma write_state_state r s h : fr_state (write_state r s h) = s.
+Proof. reflexivity. Qed.
+
+Lemma upd_row_inv rows ever p fn :
+  (forall r, fr_path (fn r) = fr_path r /\
+             (is_output_role (fr_state (fn r)) = true -> is_output_role (fr_state r) = true)) ->
+  rows_inv rows ever -> rows_inv (upd_row rows p fn) ever.
+Proof.
+  intros Hfn Hinv r Hin Hrole. unfold upd_row in Hin. apply in_map_iff in Hin.
+  destruct Hin as [r0 [Hr0 Hin0]]. destruct (str_eqb (fr_path r0) p).
+  - subst r. destruct (Hfn r0) as [Hp Hs]. rewrite Hp. apply Hinv; [exact Hin0 | apply Hs; exact Hrole].
+  - subst r. apply Hinv; assumption.
+Qed.
+
+Lemma rows_inv_weaken rows ever p : rows_inv rows ever -> rows_inv rows (p :: ever).
+Proof. intros H r Hin Hrole. right. apply H; assumption. Qed.
+
+Lemma gen_transitions_keep_role cause old known n :
+  lookup_transition cause old known = Some n -> is_output_role n = true -> is_output_role old = true.
+Proof.
+  unfold lookup_transition.
+  destruct (find _ hash_transitions) as [[[[c o] k] n']|] eqn:Hf; [|discriminate].
+  intros H. inversion H. subst n'. apply find_some in Hf. destruct Hf as [Hin Hm].
+  apply andb_true_iff in Hm. destruct Hm as [Hm _]. apply andb_true_iff in Hm. destruct Hm as [_ Ho].
+  apply N.eqb_eq in Ho. subst o.
+  assert (forallb (fun t : (N * N * bool) * N => let '((_, o, _), n) := t in
+            implb (is_output_role n) (is_output_role o)) hash_transitions = true) as Hall
+    by (vm_compute; reflexivity).
+  rewrite forallb_forall in Hall. specialize (Hall _ Hin). cbv beta iota in Hall.
+  intros Hn. rewrite Hn in Hall. exact Hall.
+Qed.
+
+Lemma gen_set_state_keep_role site from to :
+  nth_error set_state_sites site = Some (from, to) -> is_output_role to = true -> is_output_role from = true.
+Proof.
+  intros Hn. apply nth_error_In in Hn.
+  assert (forallb (fun t : N * N => implb (is_output_role (snd t)) (is_output_role (fst t))) set_state_sites = true)
+    as Hall by (vm_compute; reflexivity).
+  rewrite forallb_forall in Hall. specialize (Hall _ Hn). cbn [fst snd] in Hall.
+  intros Ht. rewrite Ht in Hall. exact Hall.
+Qed.
+
+Lemma gen_keep_old s : memN s keep_old = true -> is_output_role s = true.
+Proof. intros H. apply (memN_forallb is_output_role s _ H). vm_compute. reflexivity. Qed.
+
+Lemma gen_static_requests :
+  is_output_role FS_UNCONFIRMED = false /\ is_output_role FS_UNDECLARED = false /\
+  memN FS_UNCONFIRMED keep_requested = false.
+Proof. vm_compute. repeat split; reflexivity. Qed.
+
+Lemma gen_revert_from_role s : memN s revert_from = true -> is_output_role s = true.
+Proof. intros H. apply (memN_forallb is_output_role s _ H). vm_compute. reflexivity. Qed.
+
+Lemma init_row_state_role req old :
+  is_output_role (init_row_state req old) = true -> is_output_role req = true \/ is_output_role old = true.
+Proof.
+  unfold init_row_state. destruct (memN req keep_requested && memN old keep_old) eqn:E.
+  - intros H. right. exact H.
+  - intros H. left. exact H.
+Qed.
+
+Lemma init_row_inv rows ever p req :
+  rows_inv rows ever -> (is_output_role req = true -> In p ever) -> rows_inv (init_row rows p req) ever.
+Proof.
+  intros Hinv Hreq. unfold init_row. destruct (has_row rows p).
+  - intros r Hin Hrole. unfold upd_row in Hin. apply in_map_iff in Hin. destruct Hin as [r0 [Hr0 Hin0]].
+    destruct (str_eqb (fr_path r0) p) eqn:E.
+    + subst r. rewrite write_state_path. rewrite write_state_state in Hrole.
+      apply init_row_state_role in Hrole. destruct Hrole as [H|H].
+      * apply str_eqb_eq in E. rewrite E. apply Hreq. exact H.
+      * apply Hinv; assumption.
+    + subst r. apply Hinv; assumption.
+  - intros r Hin Hrole. apply in_app_or in Hin. destruct Hin as [Hin|[<-|[]]].
+    + apply Hinv; assumption.
+    + cbn [fr_path fr_state] in *. apply Hreq. exact Hrole.
+Qed.
+
+Lemma apply_fop_inv h o : rows_inv (h_rows h) (h_ever h) -> rows_inv (h_rows (apply_fop h o)) (h_ever (apply_fop h o)).
+Proof.
+  intros Hinv. destruct gen_static_requests as [G1 [G2 G3]].
+  destruct o as [p st|p|p|cause p hh|site p|p|p]; cbn [apply_fop].
+  - destruct (is_output_role st && memN st declare_states); [|exact Hinv]. cbn [h_rows h_ever].
+    apply init_row_inv; [apply rows_inv_weaken; exact Hinv | intros _; left; reflexivity].
+  - cbn [h_rows h_ever]. apply init_row_inv; [exact Hinv | intros H; congruence].
+  - cbn [h_rows h_ever]. apply init_row_inv; [exact Hinv | intros H; congruence].
+  - cbn [h_rows h_ever]. apply upd_row_inv; [|exact Hinv]. intros r.
+    destruct (lookup_transition cause (fr_state r) _) as [n|] eqn:Hl.
+    + split; [reflexivity|]. rewrite write_state_state. apply (gen_transitions_keep_role _ _ _ _ Hl).
+    + split; [reflexivity | auto].
+  - destruct (nth_error set_state_sites site) as [[from to]|] eqn:Hn; [|exact Hinv].
+    cbn [h_rows h_ever]. apply upd_row_inv; [|exact Hinv]. intros r.
+    destruct (fr_state r =? from) eqn:E.
+    + split; [reflexivity|]. rewrite write_state_state. apply N.eqb_eq in E. rewrite E.
+      apply (gen_set_state_keep_role _ _ _ Hn).
+    + split; [reflexivity | auto].
+  - cbn [h_rows h_ever]. apply upd_row_inv; [|exact Hinv]. intros r.
+    destruct (memN (fr_state r) revert_from && negb (fr_state r =? revert_exempt)) eqn:E.
+    + split; [reflexivity|]. intros _. apply andb_true_iff in E. apply gen_revert_from_role. apply E.
+    + split; [reflexivity | auto].
+  - cbn [h_rows h_ever]. intros r Hin Hrole. apply filter_In in Hin. apply Hinv; [apply Hin | exact Hrole].
+Qed.
+
+Theorem ever_output_invariant ops :
+  let h := run_fops ops empty_hist in rows_inv (h_rows h) (h_ever h).
+Proof.
+  cbv zeta. unfold run_fops.
+  assert (forall h0, rows_inv (h_rows h0) (h_ever h0) ->
+            rows_inv (h_rows (fold_left apply_fop ops h0)) (h_ever (fold_left apply_fop ops h0))) as Hgen.
+  { induction ops as [|o ops IH]; intros h0 H0; [exact H0|]. cbn [fold_left]. apply IH. apply apply_fop_inv. exact H0. }
+  apply Hgen. intros r [].
+Qed.
+
+(* ever_output only grows *)
+Lemma apply_fop_ever_mono h o p : In p (h_ever h) -> In p (h_ever (apply_fop h o)).
+Proof.
+  intros H. destruct o as [q st|q|q|cause q hh|site q|q|q]; cbn [apply_fop]; try exact H.
+  - destruct (_ && _); [right; exact H | exact H].
+  - destruct (nth_error set_state_sites site) as [[from to]|]; exact H.
+Qed.
+
+(* the rows of a graph carry the invariant over to ever_inv *)
+Lemma rows_inv_ever_inv g ever : rows_inv (rows_of g) ever -> ever_inv g ever.
+Proof.
+  intros H n Hn Hk Hrole. unfold rows_inv, rows_of in H.
+  apply (H (mkRow (nlabel n) (nfstate n) (nfhash n))); [|exact Hrole].
+  apply in_map_iff. exists n. split; [reflexivity|]. apply filter_In. split; [exact Hn|].
+  apply N.eqb_eq. exact Hk.
+Qed.
+
+(* ---- static adoption ----------------------------------------------------------------------- *)
+
+Theorem static_adoption_forgets_output_hash r :
+  memN (fr_state r) clear_pair_old = true ->
+  let r' := write_state r (init_row_state FS_UNCONFIRMED (fr_state r)) (fr_hash r) in
+  fr_state r' = FS_UNCONFIRMED /\ fr_hash r' = None /\ is_output_role (fr_state r') = false /\
+  memN (fr_state r') clean_select_states = false /\
+  memN (fr_state r') bd_volatile_states = false /\ memN (fr_state r') bd_hashed_states = false.
+Proof.
+  intros Hold. cbv zeta. destruct gen_static_requests as [G1 [G2 G3]].
+  assert (init_row_state FS_UNCONFIRMED (fr_state r) = FS_UNCONFIRMED) as Hs
+    by (unfold init_row_state; rewrite G3; reflexivity).
+  rewrite Hs. split; [reflexivity|]. split.
+  - unfold write_state, clear_hash_when. cbn [fr_hash]. rewrite Hold.
+    assert (memN FS_UNCONFIRMED clear_pair_new = true) as -> by (vm_compute; reflexivity).
+    rewrite orb_true_r. destruct (fr_hash r); reflexivity.
+  - rewrite write_state_state. vm_compute. repeat split; reflexivity.
+Qed.
+
+(* an adopted file is not queued by File.before_delete *)
+Lemma before_delete_static_no_file n q :
+  nkind n = KFILE -> memN (nfstate n) bd_volatile_states = false -> memN (nfstate n) bd_hashed_states = false ->
+  forall p, qfile_get (before_delete n q) p = qfile_get q p.
+Proof.
+  intros Hk Hv Hh p. unfold before_delete. rewrite Hk, N.eqb_refl, Hv, Hh. apply qfile_get_mark_dir.
 Qed.
